@@ -1,4 +1,5 @@
 #include <cstdio>
+#include <cerrno>
 #include <unistd.h>
 #include <inttypes.h>
 
@@ -200,7 +201,17 @@ int main(int argc, char* const* argv)
 
     int selected = -1;
     if (ca.m.count('s')) {
-        selected = atoi(ca.m['s'].c_str());
+        // the index must be a plain non-negative decimal number that fits an int (atoi would read "-2", "abc" or "1x" as something,
+        // and wrap 4294967296 to 0): anything else is refused instead of silently selecting another input
+        const std::string& sel = ca.m['s'];
+        char* end = nullptr;
+        errno = 0;
+        long v = strtol(sel.c_str(), &end, 10);
+        if (sel.empty() || !isdigit((unsigned char)sel[0]) || *end != 0 || errno == ERANGE || v > 0x7fffffffL) {
+            fprintf(stderr, "error: invalid --select value \"%s\" (expected the index of the input to debug)\n", sel.c_str());
+            return 1;
+        }
+        selected = (int)v;
     }
 
     if (ca.l.size() > 0 && !strncmp(ca.l[0], "tx=", 3)) {
